@@ -98,7 +98,8 @@ def cTx : STx → TxMsg → Option STx
   | .txIdsBlocking, .done => some .done
   | _, _ => none
 def sTx : STx → TxMsg → Option STx
-  | .idle, .requestTxIds => some .txIdsBlocking
+  | .idle, .requestTxIds true => some .txIdsBlocking
+  | .idle, .requestTxIds false => some .txIdsNonBlocking
   | .idle, .requestTxs => some .txs
   | _, _ => none
 
